@@ -82,7 +82,7 @@ RECURSIVE FibLoop(_, _, _)
 FibLoop(n, a, b) == IF n = 0 THEN a ELSE FibLoop(n - 1, b, a + b)
 FibIt(n) == FibLoop(n, 0, 1)
 
-RecNames == {"fact", "pow", "fib", "fibacc", "gcd", "count"}
+RecNames == {"fact", "pow", "fib", "fibacc", "gcd", "count", "countup", "gcdp", "powacc"}
 RecDom(name) ==
   CASE name = "fact"   -> {<<n>> : n \in 0..12}
     [] name = "pow"    -> {<<x, y>> : x \in 0..5, y \in 0..12} \cup {<<x, y>> : x \in {7, 10}, y \in 0..9}
@@ -90,14 +90,20 @@ RecDom(name) ==
     [] name = "fibacc" -> {<<n>> : n \in 0..44}
     [] name = "gcd"    -> {<<a, b>> : a \in 0..12, b \in 0..12}
     [] name = "count"  -> {<<n>> : n \in (0..12) \cup {100, 1000, CountBig}}
+    [] name = "countup" -> {<<n>> : n \in (0..8) \cup {100}}
+    [] name = "gcdp"   -> {<<a, b>> : a \in 0..12, b \in 0..12}
+    [] name = "powacc" -> {<<x, y>> : x \in 0..5, y \in 0..8}
 RecDef(name) == CASE name = "fact" -> FactDef [] name = "pow" -> PowDef [] name = "fib" -> FibDef
                   [] name = "fibacc" -> FibAccDef [] name = "gcd" -> GcdDef [] name = "count" -> CountDef
+                  [] name = "countup" -> CountUpDef [] name = "gcdp" -> GcdPDef [] name = "powacc" -> PowAccDef
 (* the arguments the definition is entered with (accumulators start at their initial values) *)
-RecCall(name, a) == CASE name = "fibacc" -> <<a[1], 0, 1>> [] name = "count" -> <<a[1], 0>> [] OTHER -> a
+RecCall(name, a) == CASE name = "fibacc" -> <<a[1], 0, 1>> [] name \in {"count", "countup"} -> <<a[1], 0>>
+                      [] name = "powacc" -> <<a[1], a[2], 1>> [] OTHER -> a
 (* what the mathematical recurrence defines *)
 RecMath(name, a) == CASE name = "fact" -> Fact(a[1]) [] name = "pow" -> Pow(a[1], a[2])
                       [] name = "fib" -> Fib(a[1]) [] name = "fibacc" -> FibIt(a[1])
-                      [] name = "gcd" -> Gcd(a[1], a[2]) [] name = "count" -> Countdown(a[1])
+                      [] name \in {"gcd", "gcdp"} -> Gcd(a[1], a[2]) [] name = "count" -> Countdown(a[1])
+                      [] name = "countup" -> a[1] [] name = "powacc" -> Pow(a[1], a[2])
 
 (* ------------------------------------------------------------ enumeration *)
 Dummy == [stage |-> 0, kind |-> "list", fam |-> "scalar", form |-> "fn", ids |-> <<>>, name |-> "", args |-> <<>>]
